@@ -2,7 +2,7 @@
 from vlib import Suite, zlit, zlist, coqlist, blit
 
 ID = "C03"
-READY = False
+READY = True
 RULE = ("timelines on a 1/8 s grid for four switches (NO, NC, NO with timed activation/deactivation events, NC starting "
         "active) of one real machine on the virtual clock: raw/logical reports by name or by number (about half of them "
         "duplicates), registrations/removals of handlers drawn from a small pool of (callback,state,ms) triples (so exact "
@@ -218,6 +218,8 @@ def _run(st, case):
     def fn(swi, cb):
         if (swi, cb) not in fns:
             def f(**kwargs):
+                if len(trace) > 3000:
+                    raise RuntimeError("runaway: more than 3000 trace entries")
                 trace.append(["f", _rel(st), swi, cb])
                 for a in case["acts"].get(str(cb), []):
                     if a[0] == "a":
@@ -510,7 +512,7 @@ def describe(case):
 
 SUITES = [
     Suite("timeline", gen, run_impl, HDR, coq_case, oracle, shrink, nontrivial,
-          {"quick": 3000, "thorough": 60000}, shard=250, describe=describe, case_timeout=120),
+          {"quick": 2400, "thorough": 60000}, shard=250, describe=describe, case_timeout=20),
 ]
 
 LEVEL_TEXT = ("Machine-checked proof (Coq) over an executable model of one switch of SwitchController (with the three "
